@@ -46,13 +46,21 @@ func c08Store(r, gap int) []lib.Pair {
 
 func c08Stmt(c *c08Case, limited bool) *lib.Stmt {
 	w := lib.Bin("^=", lib.Value(), lib.Str("y"))
+	if c.Kind == "plain-in" || c.Kind == "delete-in" {
+		// the same result through point reads: key in (<every matching key>, <a missing key>)
+		items := []*lib.Node{lib.Str("m999")}
+		for i := c.R - 1; i >= 0; i-- {
+			items = append(items, lib.Str(fmt.Sprintf("m%03d", i)))
+		}
+		w = lib.In(lib.Key(), items...)
+	}
 	var lim *lib.Limit
 	if limited {
 		lim = &lib.Limit{Start: c.S, Count: c.N, Two: c.Two}
 	}
 	st := &lib.Stmt{Kind: "select", Where: w, Lim: lim}
 	switch c.Kind {
-	case "plain":
+	case "plain", "plain-in":
 		st.Fields = []lib.SelField{{E: lib.Key()}, {E: lib.Value()}}
 	case "ordered":
 		st.Fields = []lib.SelField{{E: lib.Key()}, {E: lib.Value()}}
@@ -67,7 +75,7 @@ func c08Stmt(c *c08Case, limited bool) *lib.Stmt {
 		st.Fields = []lib.SelField{{E: lib.Call("upper", lib.Key()), Alias: "g1"}, {E: lib.Call("count", lib.Int(1))}}
 		st.Group = []string{"g1"}
 		st.Order = []lib.OrderKey{{Name: "g1", Dir: "desc"}}
-	case "delete":
+	case "delete", "delete-in":
 		st = &lib.Stmt{Kind: "delete", Where: w, Lim: lim}
 	}
 	return st
@@ -97,7 +105,7 @@ func checkC08(c *c08Case) (msg string, nontrivial bool, labels []string) {
 			match = append(match, p)
 		}
 	}
-	if c.Kind == "delete" {
+	if c.Kind == "delete" || c.Kind == "delete-in" {
 		in := lib.NewInstr(lib.NewStore(pairs))
 		res := lib.Run(lq, in, len(pairs), cfg)
 		if res.BuildErr != nil {
@@ -109,6 +117,10 @@ func checkC08(c *c08Case) (msg string, nontrivial bool, labels []string) {
 		want := map[string]bool{}
 		for _, p := range match[lo:hi] {
 			want[p.K] = true
+		}
+		prior := map[string]bool{}
+		for _, p := range pairs {
+			prior[p.K] = true
 		}
 		var wantLeft []lib.Pair
 		for _, p := range pairs {
@@ -133,6 +145,9 @@ func checkC08(c *c08Case) (msg string, nontrivial bool, labels []string) {
 			}
 			if cl.Op == "Delete" || cl.Op == "BatchDelete" {
 				for _, k := range cl.Keys {
+					if _, stored := prior[k]; !stored {
+						continue // removing a key that is not stored changes nothing
+					}
 					if !want[k] {
 						return fmt.Sprintf("statement %q [%s] issued a delete for key %q, which is outside the selected slice %v", lq, cfg, k, lib.SortedStrings(want)), nontrivial, labels
 					}
@@ -153,7 +168,7 @@ func checkC08(c *c08Case) (msg string, nontrivial bool, labels []string) {
 	if len(u.Rows) != c.R {
 		return fmt.Sprintf("un-limited statement %q [%s] returns %d rows, the reference %d", uq, cfg, len(u.Rows), c.R), nontrivial, labels
 	}
-	if c.Kind == "plain" || c.Kind == "aggr" {
+	if c.Kind == "plain" || c.Kind == "aggr" || c.Kind == "plain-in" {
 		// the unlimited result itself is the reference-filtered list in key order
 		for i, p := range match {
 			if u.Rows[i][0] != any(p.K) {
@@ -192,7 +207,7 @@ func checkC08(c *c08Case) (msg string, nontrivial bool, labels []string) {
 	return "", nontrivial, labels
 }
 
-var c08Kinds = []string{"plain", "ordered", "ties", "aggr", "aggr-ordered", "delete"}
+var c08Kinds = []string{"plain", "ordered", "ties", "aggr", "aggr-ordered", "delete", "plain-in", "delete-in"}
 
 func c08Run(t lib.Fataler, c *c08Case, enum bool) {
 	lib.Journal("C08", "c08", c)
